@@ -332,6 +332,11 @@ func (s *BaseNodeService) verifyMessage(fsmInstance *state_machines.FSMInstance,
 		return fmt.Errorf("failed to GetPubKeyByUsername: %w", err)
 	}
 
+	// ed25519.Verify panics on a key of any other length, and the keys come from the board
+	if len(senderPubKey) != ed25519.PublicKeySize {
+		return fmt.Errorf("communication key of %s has invalid length %d", message.SenderAddr, len(senderPubKey))
+	}
+
 	if !ed25519.Verify(senderPubKey, message.Bytes(), message.Signature) {
 		return errors.New("signature is corrupt")
 	}
